@@ -69,6 +69,73 @@ fn c01_hll_rel_err_signs_and_nesting() {
     kani::cover!(lg_k == 21 && !ooo);
 }
 
+fn advertised_rse_case(lg_k: u8, s: u8, ub: bool) {
+    let k = (1u64 << lg_k) as f64;
+    let hip = get_rel_err(lg_k, ub, false, nsd(s));
+    let non = get_rel_err(lg_k, ub, true, nsd(s));
+    let (ah, an) = (if hip < 0.0 { -hip } else { hip }, if non < 0.0 { -non } else { non });
+    assert!(an >= ah, "out-of-order (composite) interval narrower than the HIP interval");
+    if lg_k > 12 {
+        let ss = (s as f64) * (s as f64);
+        let (h2, n2) = (ah * ah * k, an * an * k);
+        assert!(h2 >= ss * 0.693147 * 0.999 && h2 <= ss * 0.693147 * 1.001, "HIP RSE is not sqrt(ln 2 / k)");
+        assert!(n2 >= ss * 1.079442 * 0.999 && n2 <= ss * 1.079442 * 1.001, "non-HIP RSE is not sqrt((3 ln 2 - 1) / k)");
+    }
+    kani::cover!(true);
+}
+
+macro_rules! advertised_rse {
+    ($name:ident, $lgk:expr, $s:expr, $ub:expr) => {
+        #[kani::proof]
+        #[kani::unwind(5)]
+        fn $name() {
+            advertised_rse_case($lgk, $s, $ub);
+        }
+    };
+}
+
+//@ family: advertised_rse
+//@ props: C01
+//@ tier: thorough
+//@ timeout: 900
+//@ functions: hll::estimator::get_rel_err
+//@ unwind: 5
+//@ bounds: one concrete (lg_k, sigma, bound) per instance - lg_k 13, 17, 21 on the analytic branch (two float divisions by a square root each: more do not decide within minutes) - both estimators; the table branch (lg_k <= 12) is c01_hll_rel_err_tables_hip_vs_composite
+//@ desc: the advertised relative standard error: for lg_k > 12 the factor is s * RSE with RSE^2 * k = ln 2 (HIP, in-order) and 3 ln 2 - 1 (composite: out-of-order / merged sketches) to 0.1 percent, and the out-of-order interval is the wider one
+advertised_rse!(c01_hll_advertised_rse_lgk13_s1_lb, 13, 1, false); //@ tier: quick
+advertised_rse!(c01_hll_advertised_rse_lgk13_s2_ub, 13, 2, true);
+advertised_rse!(c01_hll_advertised_rse_lgk17_s3_lb, 17, 3, false);
+advertised_rse!(c01_hll_advertised_rse_lgk21_s1_ub, 21, 1, true); //@ tier: quick
+//@ endfamily: x
+
+//@ props: C01
+//@ tier: quick
+//@ timeout: 300
+//@ functions: hll::estimator::get_rel_err
+//@ bounds: all 4 x 27 table entries (lg_k 4..=12, sigma 1..=3, both bounds), concrete loop
+//@ desc: at every tabulated lg_k the out-of-order (composite estimator) interval is at least as wide as the in-order (HIP) one - a swap of the HIP and non-HIP tables or arms is detected
+#[kani::proof]
+#[kani::unwind(12)]
+fn c01_hll_rel_err_tables_hip_vs_composite() {
+    let mut lg_k = 4u8;
+    while lg_k <= 12 {
+        let mut s = 1u8;
+        while s <= 3 {
+            let mut ub = 0;
+            while ub < 2 {
+                let hip = get_rel_err(lg_k, ub == 1, false, nsd(s));
+                let non = get_rel_err(lg_k, ub == 1, true, nsd(s));
+                let (ah, an) = (if hip < 0.0 { -hip } else { hip }, if non < 0.0 { -non } else { non });
+                assert!(an >= ah, "out-of-order (composite) interval narrower than the HIP interval");
+                ub += 1;
+            }
+            s += 1;
+        }
+        lg_k += 1;
+    }
+    kani::cover!(true);
+}
+
 /// ordering at one sigma level and nesting against the next, for a concrete lg_k (two or three symbolic
 /// float divisions per harness: more do not decide within minutes)
 fn hip_bounds_case(lg_k: u8, s: u8, ooo: bool) {
